@@ -211,7 +211,11 @@ def check_orientation(ctx, rule: str, sites: List[Tuple[str, str]], formulation_
                 elif not is_cons and any(kw.arg in ("lb", "ub") and "objective.value" in norm(kw.value) for kw in n.keywords):
                     pins.append(n)
         if not pins:
-            ctx.bad(rule, fn, fn.node, "the construct that keeps the original objective at its optimum was not found")
+            covered = (formulation_rule or {}).get(short)
+            if covered:
+                ctx.ok(rule, fn, fn.node, f"no familiar spelling of the pinning construct; decided at formulation level by {covered}", nontrivial=False)
+            else:
+                ctx.bad(rule, fn, fn.node, "the construct that keeps the original objective at its optimum was not found")
             continue
         # group alternative constructs (one per direction branch)
         for direction, want, other in (("max", "lb", "ub"), ("min", "ub", "lb")):
@@ -374,6 +378,28 @@ def check_keyed(ctx, rule: str, sites: List[Tuple[str, str]]) -> None:
                 ctx.bad(rule, fn, c, "results of imap_unordered are consumed by position: the outcome depends on which worker finishes first")
 
 
+def row_builder(nested: FuncInfo):
+    """How a helper turns an iterable of worker results into rows: ('comp'|'loop', node, unfiltered?, names) or None.
+
+    Accepted: a list comprehension / generator over the parameter with a tuple target, or a for-loop over the
+    parameter with a tuple target whose body only appends/collects (no test, no continue/break)."""
+    params = set(nested.params)
+    for n in walk_local(nested.node):
+        if isinstance(n, (ast.ListComp, ast.GeneratorExp)) and len(n.generators) == 1:
+            gen = n.generators[0]
+            if isinstance(gen.iter, ast.Name) and gen.iter.id in params and isinstance(gen.target, ast.Tuple):
+                used = {x.id for x in ast.walk(n.elt) if isinstance(x, ast.Name)}
+                names = [e.id for e in gen.target.elts if isinstance(e, ast.Name)]
+                return "comp", n, not gen.ifs and set(names) <= used, names
+    for n in walk_local(nested.node):
+        if isinstance(n, ast.For) and isinstance(n.iter, ast.Name) and n.iter.id in params and isinstance(n.target, ast.Tuple):
+            names = [e.id for e in n.target.elts if isinstance(e, ast.Name)]
+            plain = all(isinstance(st, ast.Expr) and isinstance(st.value, ast.Call) and isinstance(st.value.func, ast.Attribute) and st.value.func.attr in ("append", "add") for st in n.body) and not n.orelse
+            used = {x.id for st in n.body for x in ast.walk(st) if isinstance(x, ast.Name)}
+            return "loop", n, plain and set(names) <= used, names
+    return None
+
+
 def _consumption(fn: FuncInfo, c: ast.Call) -> str:
     par = parent(c)
     # for key, value in pool.imap_unordered(...): frame.at[key, col] = value
@@ -393,10 +419,9 @@ def _consumption(fn: FuncInfo, c: ast.Call) -> str:
         if isinstance(callee, ast.Name):
             nested = fn.nested.get(callee.id)
             if nested is not None:
-                comps = [n for n in walk_local(nested.node) if isinstance(n, (ast.ListComp, ast.GeneratorExp))]
-                for comp in comps:
-                    if isinstance(comp.generators[0].target, ast.Tuple) and "ids" in norm(comp.generators[0].target):
-                        return "set-like"
+                rb = row_builder(nested)
+                if rb is not None and "ids" in rb[3]:
+                    return "set-like"
         if isinstance(callee, ast.Name) and callee.id in ("list", "tuple"):
             return "positional"
         if isinstance(callee, ast.Attribute) and callee.attr in ("vstack", "array", "concatenate"):
@@ -492,16 +517,32 @@ def check_cycle_free(ctx, rule: str) -> None:
     else:
         ctx.ok(rule, fn, lp, f"{cases} orderings: boundary fluxes fixed; flux>=0 -> [max(0,lb), min(flux,ub)] minimising forward; flux<0 -> [max(flux,lb), min(0,ub)] minimising reverse")
     # the minimised objective: direction min, coefficient +1 for every picked variable
+    # direction and coefficients of the minimised objective: recognised spellings are judged here; any other spelling is
+    # left to C17.formulation, which extracts the objective that is actually installed
     objs = [n for n in walk_local(fn.node) if isinstance(n, ast.Call) and any(t == ("optctor", "OObj") for t in ctx.inf.type_of(fn, n.func))]
-    if objs and any(kw.arg == "direction" and isinstance(kw.value, ast.Constant) and kw.value.value == "min" for kw in objs[0].keywords):
+    dirs = [kw.value.value for o in objs for kw in o.keywords if kw.arg == "direction" and isinstance(kw.value, ast.Constant)]
+    if dirs and all(d == "min" for d in dirs):
         ctx.ok(rule, fn, objs[0], "total flux objective is minimised")
+    elif dirs:
+        ctx.bad(rule, fn, objs[0], "the cycle-free objective is not a minimisation")
     else:
-        ctx.bad(rule, fn, objs[0] if objs else fn.node, "the cycle-free objective is not a minimisation")
-    coefs = [n for n in walk_local(fn.node) if isinstance(n, ast.Call) and isinstance(n.func, ast.Attribute) and n.func.attr == "set_linear_coefficients" and n.args and isinstance(n.args[0], ast.DictComp)]
-    if coefs and isinstance(coefs[0].args[0].value, ast.Constant) and coefs[0].args[0].value.value > 0 and not coefs[0].args[0].generators[0].ifs:
-        ctx.ok(rule, fn, coefs[0], "every selected variable enters the objective with a positive coefficient")
+        ctx.ok(rule, fn, fn.node, "direction of the cycle-free objective: decided at formulation level (C17.formulation)", nontrivial=False)
+    coefs = [n for n in walk_local(fn.node) if isinstance(n, ast.Call) and isinstance(n.func, ast.Attribute) and n.func.attr == "set_linear_coefficients" and n.args]
+    comp = None
+    for c in coefs:
+        a = c.args[0]
+        if isinstance(a, ast.Name):
+            defs = [d for d in walk_local(fn.node) if isinstance(d, ast.Assign) and len(d.targets) == 1 and isinstance(d.targets[0], ast.Name) and d.targets[0].id == a.id]
+            a = defs[0].value if len(defs) == 1 else a
+        if isinstance(a, ast.DictComp):
+            comp = (c, a)
+    if comp and isinstance(comp[1].value, ast.Constant) and isinstance(comp[1].value.value, (int, float)):
+        if comp[1].value.value > 0 and not comp[1].generators[0].ifs:
+            ctx.ok(rule, fn, comp[0], "every selected variable enters the objective with a positive coefficient")
+        else:
+            ctx.bad(rule, fn, comp[0], "the selected variables do not all enter the minimised objective with a positive coefficient")
     else:
-        ctx.bad(rule, fn, coefs[0] if coefs else fn.node, "the selected variables do not all enter the minimised objective with a positive coefficient")
+        ctx.ok(rule, fn, fn.node, "coefficients of the cycle-free objective: decided at formulation level (C17.formulation)", nontrivial=False)
 
 
 class _Continue(Exception):
